@@ -313,6 +313,7 @@ def check_C07(chk: Check, replay) -> None:
         raise Machinery("a canary was not rejected by StreamTrace")
     chk.add_tlc("StreamTrace", res, traces=n * (len(SINKS) + len(SOURCES)))
     chk.notes.append(f"{n} message sequences x {len(SINKS)} sink kinds x {len(SOURCES)} source kinds; 2 canaries rejected")
+    check_connections(chk)
     for info in infos:
         with open(info["path"]) as fh:
             for c in json.load(fh)["cases"]:
@@ -334,3 +335,229 @@ def check_C07(chk: Check, replay) -> None:
                     chk.violation("+".join(sorted(f))[:100],
                                   f"messages {[m['sid'] for m in c['msgs']]}: {sorted(f)} {outs[:3]}",
                                   {"kind": "stream", "msgs": c["msgs"]})
+
+
+# ============================================================ the documented recipe (usage.rst)
+def documented_exchange(stream, request_cls, request, correlation_id: int, client_id):
+    """docs/pages/usage.rst, synchronous variant, for an arbitrary request class."""
+    from kio.index import load_response_from_request
+    from kio.serial import entity_reader, entity_writer
+    from kio.serial.readers import read_int32
+    from kio.serial.writers import write_int32
+    from kio.static.primitive import i32
+    header_cls = request_cls.__header_schema__
+    kw = {"request_api_key": request_cls.__api_key__, "request_api_version": request_cls.__version__,
+          "correlation_id": correlation_id}
+    if "client_id" in {f.name for f in __import__("dataclasses").fields(header_cls)}:
+        kw["client_id"] = client_id
+    request_header = header_cls(**kw)
+    with io.BytesIO() as message_buffer:
+        entity_writer(header_cls)(message_buffer, request_header)
+        entity_writer(request_cls)(message_buffer, request)
+        write_int32(stream, i32(message_buffer.tell()))
+        stream.write(message_buffer.getvalue())
+        stream.flush()
+    response_length = read_int32(stream)
+    response_buffer = io.BytesIO(stream.read(response_length))
+    response_cls = load_response_from_request(request_cls)
+    response_header = entity_reader(response_cls.__header_schema__)(response_buffer)
+    assert response_header.correlation_id == correlation_id
+    response = entity_reader(response_cls)(response_buffer)
+    return response_cls, response_header, response, len(response_buffer.read())
+
+
+def _header_value(hschema: dict, key: int, version: int, corr: int, client_id) -> dict:
+    vals = []
+    for fs in hschema["fields"]:
+        if fs["name"] == "request_api_key":
+            vals.append(project.aint(key))
+        elif fs["name"] == "request_api_version":
+            vals.append(project.aint(version))
+        elif fs["name"] == "correlation_id":
+            vals.append(project.aint(corr))
+        elif fs["name"] == "client_id":
+            vals.append(project.NULL if client_id is None else project.ablob(client_id.encode()))
+        else:
+            raise Machinery(f"unexpected request header field {fs['name']}")
+    return {"rec": vals}
+
+
+def gen_connection_inputs(args) -> dict:
+    path, lo, hi, seed, pinned_keys = args
+    import importlib
+    classes = sorted(project.all_entity_classes(), key=project.sid_of)
+    requests = [c for c in classes if getattr(c, "__type__").name == "request"]
+    by_sid = {project.sid_of(c): c for c in classes}
+    schemas, conns, enc_cases = {}, [], []
+    rng = random.Random(seed)
+    chosen = requests[lo:hi]
+    for ci in range(0, len(chosen), 3):
+        xs = []
+        for cls in chosen[ci:ci + 3]:
+            r = random.Random(seed * 7 + hash(project.sid_of(cls)) % 10**6)
+            parts = cls.__module__.split(".")
+            api, version = parts[2], int(parts[3][1:])
+            rs = project.project_schema(cls)
+            hs = project.project_schema(cls.__header_schema__)
+            resp_mod = importlib.import_module(".".join(parts[:4] + ["response"]))
+            resp_cls = next(c for c in project.module_classes(resp_mod) if c.__type__.name == "response")
+            ps = project.project_schema(resp_cls)
+            # the response header Kafka prescribes (v1 for flexible versions, v0 otherwise, v0 for ApiVersions)
+            rhv = 0 if pinned_keys[api] == 18 or not ps["flex"] else 1
+            phs = project.project_schema(importlib.import_module(f"kio.schema.response_header.v{rhv}.header").ResponseHeader)
+            for s in (rs, hs, ps, phs):
+                schemas[s["sid"]] = s
+            corr = r.choice([0, 1, 2**31 - 1, r.randrange(2**31)])
+            client_id = r.choice(["test", None, "", "klient-é"])
+            var = codec_driver.sample_variant(r, canonical=(not ps["flex"]) or r.random() < 0.5)
+            x = {"req_sid": rs["sid"], "hdr_sid": hs["sid"], "resp_sid": ps["sid"], "resp_hdr_sid": phs["sid"],
+                 "req_value": Sampler(r.randrange(10**9), profile=r.choice(["mixed", "max"])).value(rs, budget=60),
+                 "hdr_value": _header_value(hs, pinned_keys[api], version, corr, client_id),
+                 "resp_value": Sampler(r.randrange(10**9), profile=r.choice(["mixed", "max"])).value(ps, budget=60),
+                 "resp_hdr_value": {"rec": [project.aint(corr)]},
+                 "var": var if phs["flex"] else dict(var, unk=var["unk"]), "api_key": pinned_keys[api], "version": version,
+                 "corr": corr, "client_id": client_id}
+            if not phs["flex"] and not ps["flex"]:
+                x["var"] = {"expl": 0, "unk": []}
+            k = len(enc_cases)
+            enc_cases.append({"id": f"x{lo}_{k}h", "sid": phs["sid"], "value": x["resp_hdr_value"], "var": x["var"]})
+            enc_cases.append({"id": f"x{lo}_{k}p", "sid": ps["sid"], "value": x["resp_value"], "var": x["var"]})
+            x["enc_ids"] = [f"x{lo}_{k}h", f"x{lo}_{k}p"]
+            xs.append(x)
+        conns.append({"id": f"conn{lo}_{ci}", "exchanges": xs})
+    codec_driver.write_shard(path, schemas, enc_cases)
+    with open(path + ".conns", "w") as f:
+        json.dump(conns, f)
+    return {"path": path, "cases": len(enc_cases)}
+
+
+def run_connections(args) -> dict:
+    in_path, encoded, path = args
+    import importlib
+    with open(in_path) as f:
+        schemas = json.load(f)["schemas"]
+    with open(in_path + ".conns") as f:
+        conns = json.load(f)
+    enc = {e["id"]: project.unbabs(e["b"]) for e in encoded}
+    nx = 0
+    for conn in conns:
+        csock, bsock = socket.socketpair()
+        frames = []
+        for x in conn["exchanges"]:
+            body = enc[x["enc_ids"][0]] + enc[x["enc_ids"][1]]
+            frames.append(len(body).to_bytes(4, "big") + body)
+        received = []
+
+        def broker():
+            f = bsock.makefile("rwb")
+            try:
+                for fr in frames:
+                    size = f.read(4)
+                    if len(size) < 4:
+                        break
+                    body = f.read(int.from_bytes(size, "big", signed=True))
+                    received.append(size + body)
+                    f.write(fr)
+                    f.flush()
+            except Exception:  # noqa: BLE001
+                pass
+
+        th = threading.Thread(target=broker, daemon=True)
+        th.start()
+        stream = csock.makefile("rwb")
+        csock.settimeout(20)
+        for i, x in enumerate(conn["exchanges"]):
+            mod, _, qual = x["req_sid"].partition(":")
+            cls = getattr(importlib.import_module(mod), qual)
+            project.project_schema(cls)                    # registers the classes of this schema tree
+            req = project.build_entity(x["req_value"], schemas[x["req_sid"]])
+            x.update(out="ok", got_hdr=project.NULL, got_value=project.NULL, leftover=0, resolved_sid="")
+            try:
+                rcls, rh, resp, left = documented_exchange(stream, cls, req, x["corr"], x["client_id"])
+                x["resolved_sid"] = project.sid_of(rcls)
+                x["got_hdr"] = project.project_entity(rh, schemas[x["resp_hdr_sid"]])
+                x["got_value"] = project.project_entity(resp, schemas[x["resp_sid"]])
+                x["leftover"] = left
+            except BaseException as e:  # noqa: BLE001
+                x["out"] = "raise:" + type(e).__name__ + ":" + str(e)[:80]
+                break
+            finally:
+                nx += 1
+        try:
+            stream.close()
+            csock.close()
+        except Exception:  # noqa: BLE001
+            pass
+        th.join(5)
+        bsock.close()
+        for i, x in enumerate(conn["exchanges"]):
+            x["sent"] = babs(received[i]) if i < len(received) else {"raw": []}
+            x["broker_frame"] = babs(frames[i])
+            x.setdefault("out", "not_run")
+            for k in ("got_hdr", "got_value"):
+                x.setdefault(k, project.NULL)
+            x.setdefault("leftover", 0)
+            x.setdefault("resolved_sid", "")
+            x.pop("client_id", None)          # JSON null cannot cross to TLC; it is part of hdr_value anyway
+            x.pop("enc_ids", None)
+    with open(path, "w") as f:
+        json.dump({"schemas": schemas, "cases": conns}, f, separators=(",", ":"))
+    return {"path": path, "cases": len(conns), "exchanges": nx}
+
+
+def check_connections(chk: Check) -> None:
+    """The documented recipe against a specification-driven broker (Connection.tla / ConnectionTrace.tla)."""
+    import gzip
+    from .checks_codec import encode_with_spec
+    from .checks_codegen import PIN_PATH
+    res = tlc.run_tlc("MC_Connection", cfg="MC_Connection.cfg", workers=2, timeout=1200, xmx="2g")
+    if not tlc.tlc_ok(res):
+        raise Machinery(f"MC_Connection failed:\n{res['out'][-2000:]}")
+    chk.add_tlc("Connection/MC_Connection.cfg", res)
+    pinned = json.load(gzip.open(PIN_PATH, "rt"))
+    pinned_keys = {a: k for a, e, k, lo, hi, fl in pinned["families"] if e == "request"}
+    nreq = len(pinned_keys and [1 for c in project.all_entity_classes() if c.__type__.name == "request"])
+    K = 16
+    step = (nreq + K - 1) // K
+    quick = chk.tier != "thorough"
+    rng = random.Random(chk.seed)
+    slices = [(i * step, min(nreq, (i + 1) * step)) for i in range(K)]
+    if quick:      # a seeded third of the request classes
+        slices = [(lo, lo + max(3, (hi - lo) // 3)) for lo, hi in slices]
+    ins = pmap(gen_connection_inputs, [(os.path.join(chk.scratch, f"cx{i}.json"), lo, hi, chk.seed + 23, pinned_keys)
+                                       for i, (lo, hi) in enumerate(slices) if hi > lo])
+    encoded = encode_with_spec(chk, [i["path"] for i in ins])
+    infos = pmap(run_connections, [(i["path"], encoded[i["path"]], os.path.join(chk.scratch, f"cxo{k}.json"))
+                                   for k, i in enumerate(ins)])
+    with open(infos[0]["path"]) as f:
+        shard = json.load(f)
+    can = copy.deepcopy(shard["cases"][0])
+    can["id"] = "canary_corr"
+    can["exchanges"][0]["hdr_value"]["rec"][2] = project.aint(can["exchanges"][0]["corr"] ^ 1)
+    shard["cases"].append(can)
+    with open(infos[0]["path"], "w") as f:
+        json.dump(shard, f, separators=(",", ":"))
+    res = tlc.validate_shards("ConnectionTrace", [i["path"] for i in infos], jobs=16)
+    verdicts = {v["id"]: v["fails"] for v in res["verdicts"]}
+    if not verdicts.get("canary_corr"):
+        raise Machinery("canary was not rejected by ConnectionTrace")
+    nx = sum(i["exchanges"] for i in infos)
+    chk.add_tlc("ConnectionTrace", res, traces=nx)
+    chk.notes.append(f"documented recipe: {nx} request/response exchanges on {sum(i['cases'] for i in infos)} socket "
+                     f"connections against a specification-driven broker; canary rejected")
+    for info in infos:
+        with open(info["path"]) as fh:
+            for c in json.load(fh)["cases"]:
+                if c["id"].startswith("canary"):
+                    continue
+                f = verdicts.get(c["id"])
+                if f is None:
+                    raise Machinery(f"no verdict for {c['id']}")
+                if any(x.startswith("harness_") for x in f):
+                    raise Machinery(f"{c['id']}: {f} {[x['out'] for x in c['exchanges']]}")
+                chk.count(len(c["exchanges"]))
+                if f:
+                    outs = [(x["req_sid"], x["out"]) for x in c["exchanges"] if x["out"] != "ok"]
+                    chk.violation("recipe:" + "+".join(sorted(f))[:90],
+                                  f"documented recipe, requests {[x['req_sid'] for x in c['exchanges']]}: {sorted(f)} {outs[:2]}",
+                                  {"kind": "connection", "exchanges": [x["req_sid"] for x in c["exchanges"]]})
